@@ -125,6 +125,7 @@ int main(int argc, char **argv) {
       printf("DO %s %s %d%s", showRowsCells(t).c_str(), showNets(t).c_str(), nops + npre, pre.c_str());
       for (int k = 0; k < nops; ++k) {
         int ty = (int)g.uni(0, 11); if (ty > 8) ty = (int)g.uni(0, 2);
+        if ((big == 2 || big == 3) && (ty == 5 || ty == 7)) ty += 1;   // designed 2^31 circuits (up to 1300 nets): no shift pass, one record of it costs the model up to 20 s
         if (ty == 0) { int kk = (int)g.uni(1, 4); printf(" 0 %d %d", (int)g.uni(0, 40), kk); for (int j = 0; j < kk; ++j) printf(" %d", (int)g.uni(0, 40)); }
         else if (ty == 1) { int kk = (int)g.uni(1, 4); printf(" 1 %d %d %d", (int)g.uni(0, 40), (int)g.uni(0, 10), kk); for (int j = 0; j < kk; ++j) printf(" %d", (int)g.uni(-1, 40)); }
         else if (ty == 2) printf(" 2 %d %d %d", (int)g.uni(0, 40), (int)g.uni(0, 40), (int)g.uni(0, 4));
